@@ -37,6 +37,8 @@ struct AllocCtl {
     long count = 0;        // allocations since last reset
     long fail_at = -1;     // fail when count reaches this value (1-based); -1 = never
     long fired = 0;        // how many injected faults fired in this process
+    long live = 0;         // blocks obtained from operator new and not yet released, while `counting` (leak accounting)
+    bool counting = false; // set by a harness around calls into the library under test
     size_t max_request = 0;
     bool track_max = false;
 };
@@ -50,6 +52,7 @@ inline void *do_alloc(size_t n) {
     if (n > (size_t(1) << 40)) throw std::bad_alloc();
     void *p = std::malloc(n ? n : 1);
     if (!p) throw std::bad_alloc();
+    if (c.counting) ++c.live;
     return p;
 }
 } // namespace vh
@@ -57,13 +60,15 @@ inline void *do_alloc(size_t n) {
 #ifndef VH_NO_NEW_INTERPOSE
 void *operator new(size_t n) { return vh::do_alloc(n); }
 void *operator new[](size_t n) { return vh::do_alloc(n); }
-void operator delete(void *p) noexcept { std::free(p); }
-void operator delete[](void *p) noexcept { std::free(p); }
-void operator delete(void *p, size_t) noexcept { std::free(p); }
-void operator delete[](void *p, size_t) noexcept { std::free(p); }
+void operator delete(void *p) noexcept { if (p && vh::alloc_ctl().counting) --vh::alloc_ctl().live; std::free(p); }
+void operator delete[](void *p) noexcept { if (p && vh::alloc_ctl().counting) --vh::alloc_ctl().live; std::free(p); }
+void operator delete(void *p, size_t) noexcept { if (p && vh::alloc_ctl().counting) --vh::alloc_ctl().live; std::free(p); }
+void operator delete[](void *p, size_t) noexcept { if (p && vh::alloc_ctl().counting) --vh::alloc_ctl().live; std::free(p); }
 #endif
 
 namespace vh {
+
+struct CountScope { bool prev; CountScope() : prev(alloc_ctl().counting) { alloc_ctl().counting = true; } ~CountScope() { alloc_ctl().counting = prev; } };
 
 // ---------------------------------------------------------------- PRNG (xoshiro256**)
 struct Rng {
